@@ -222,6 +222,14 @@ def _resp_alphabet(size):
           ('F', 'no such partition'), ('X', 'WXYZjunk'), ('X', ''), ('X', 'OK')]
 
 
+# device texts that are not verbatim-safe for careless handling: format characters, white space at the edges
+_ODD_TEXTS = ['battery 5% - charge', '%s', '100%%', ' lead', 'trail ', 'line\n', '\ttab\t', ' ', '%(x)s', '%d%d']
+
+
+def _odd_alphabet():
+  return [(k, t) for t in _ODD_TEXTS for k in ('I', 'O', 'F', 'X')]
+
+
 def gen_cases(rng, tier):
   cases = []
   maxlen = 3 if tier == 'quick' else 4
@@ -233,6 +241,13 @@ def gen_cases(rng, tier):
   for i, s in enumerate(scripts):
     api, arg = apis[i % len(apis)]
     cases.append({'kind': 'S', 'api': api, 'arg': arg, 'resps': s, 'kb': [None, 1][(i // len(apis)) % 2]})
+  for i, (k, t) in enumerate(_odd_alphabet()):
+    api, arg = apis[i % len(apis)]
+    for s in ([(k, t)], [('I', t), (k, t), ('O', t)], [(k, t), ('O', 'fin')]):
+      cases.append({'kind': 'S', 'api': api, 'arg': arg, 'resps': s, 'kb': None})
+    if i % 4 == 0:
+      cases.append({'kind': 'D', 'size': 5, 'seed': 1, 'resps': [('I', t), ('D', '%08x' % 5), ('I', t), (k, t), ('O', t)], 'kb': 1,
+                    'progress': 'ok', 'source': 'file'})
   # a command longer than the chunk size cannot be built with kb>=1 (1 KiB); long oem commands are tried anyway
   cases.append({'kind': 'S', 'api': 'oem', 'arg': 'x' * 1500, 'resps': [('O', '')], 'kb': 1})
   cases.append({'kind': 'S', 'api': 'getvar', 'arg': 'y' * 1024, 'resps': [('I', 'a'), ('O', 'v')], 'kb': 1})
@@ -256,7 +271,7 @@ def gen_cases(rng, tier):
   for _ in range(300 if tier == 'quick' else 3000):
     size = rng.choice(sizes + [rng.randrange(0, 4000)])
     n = rng.randrange(0, 6)
-    s = [rng.choice(_resp_alphabet(size) + [('D', '%08x' % size)] * 4 + [('I', 'p')] * 3) for _ in range(n)]
+    s = [rng.choice(_resp_alphabet(size) + [('D', '%08x' % size)] * 4 + [('I', 'p')] * 3 + _odd_alphabet()[::7]) for _ in range(n)]
     if rng.random() < 0.5:
       api, arg = rng.choice(apis)
       cases.append({'kind': 'S', 'api': api, 'arg': arg, 'resps': s, 'kb': rng.choice([None, 1, 2])})
